@@ -313,6 +313,7 @@ class _rewrite_captured_vars(ast.NodeTransformer):
                     return node
                 self._expanding.append(v)
                 try:
+                    _use_default_values_of(lm, v)
                     return _rewrite_captured_vars(global_getclosurevars(v), self._expanding).visit(
                         lm
                     )
@@ -434,6 +435,23 @@ class _rewrite_captured_vars(ast.NodeTransformer):
     def is_arg(self, a_name: str) -> bool:
         "If the arg is on the stack, then return true"
         return any([a == a_name for frames in self._ignore_stack for a in frames])
+
+
+def _use_default_values_of(lm: ast.Lambda, f: Callable) -> None:
+    """The default values of a function's parameters are worked out when the function is
+    made (`lambda a=k: ...` in a loop): use the values the function holds, not what the
+    expressions in its source would give now."""
+    plain = (int, float, bool, str, bytes, complex)
+    values = getattr(f, "__defaults__", None) or ()
+    if len(values) == len(lm.args.defaults):
+        lm.args.defaults = [
+            as_literal(v) if type(v) in plain else d for v, d in zip(values, lm.args.defaults)
+        ]
+    kw_values = getattr(f, "__kwdefaults__", None) or {}
+    lm.args.kw_defaults = [
+        as_literal(kw_values[a.arg]) if type(kw_values.get(a.arg)) in plain else d
+        for a, d in zip(lm.args.kwonlyargs, lm.args.kw_defaults)
+    ]
 
 
 def _lambda_binder_names(args: ast.arguments) -> List[str]:
